@@ -23,7 +23,7 @@ import (
 )
 
 var (
-	keyNames = []string{"a\x00\x01", "b\x00\x01", "c\x00\x01"}
+	keyNames = []string{"a\x00\x01", "b\x00\x01", "c\x00\x01", "d\x00\x01", "e\x00\x01"}
 	parent   = map[string][]byte{keyNames[0]: []byte("A"), keyNames[2]: []byte("C")} // b is absent
 	errRead  = errors.New("injected read error")
 )
@@ -59,6 +59,12 @@ func scenarios(thorough bool) []scenario {
 			}
 			out = append(out, scenario{txs, w, -1, len(txs) - 1})
 		}
+	}
+	// a transaction with more keys than the task queue (capacity = number of transactions)
+	// plus the workers can hold: a read error on an early key must fail the fetch, not hang it
+	for _, ks := range [][]int{{0, 1, 2, 3}, {0, 1, 2, 3, 4}} {
+		add([]txSpec{{1, ks}})
+		add([]txSpec{{1, ks}, {2, []int{1}}})
 	}
 	// duplicate transaction id (same key list)
 	for _, ks := range [][]int{{0}, {0, 1}, {0, 1, 2}} {
